@@ -48,6 +48,11 @@ def random_tps(rng, span_bias, capture=False):
             f, name = rng.choice(METHODS)
             tps.append(dict(id=i + 1, kind='method', file=f, name=name, line=0,
                             span=('capture' if capture else 'method') if span == 'x' else 'none'))
+    # some of them are registered in code instead of coming from the service: in force alongside the service's, whatever
+    # the service sends later
+    for t in tps:
+        if not t.get('faulty') and rng.random() < 0.25:
+            t['reg'] = True
     return tps
 
 
@@ -285,6 +290,12 @@ def run(c):
                    [('a.kf', [('call', 'a.f', [])])], [('a.f', [])]]),
                  ([dict(id=1, kind='method', file='a', name='f', line=0, span='none')],
                   [[('a.kf', [])], [('a.f', [])], [('a.kf', [])], [('a.f', [])]]),
+                 # a tracepoint of the service and one registered in code on the same line, while the service's
+                 # configuration changes several times: each acts once per arrival at the line, all the time
+                 ([dict(id=1, kind='line', file='a', line='f_plain', span='none'),
+                   dict(id=2, kind='line', file='a', line='f_plain', span='none', reg=True),
+                   dict(id=3, kind='line', file='a', line='g_first', span='none', reg=True)],
+                  [[('a.f', [('line',), ('cfg', 255), ('line',), ('cfg', 1), ('call', 'a.g', []), ('cfg', 0), ('line',)])]]),
                  # the configuration is withdrawn, a function is entered while NOTHING is installed, and the configuration
                  # comes back while that invocation is still running: its later lines are configured locations
                  ([dict(id=1, kind='line', file='a', line='f_plain', span='none')],
